@@ -30,15 +30,34 @@ METHODS = {
 }
 PARTS = {"C07": ["wiring", "icuToCore"], "C14": ["wiring"], "C15": ["wiring"], "C16": ["wiring"],
          "C17": ["members", "resetCalls"], "C12": ["setMmio"], "C11": ["setMmio"]}
-OWNERS = sorted(set(EXTRA) | set(METHODS) | set(PARTS))
+OWNERS = sorted(set(EXTRA) | set(METHODS) | set(PARTS) | {"C06", "C07", "C11", "C12", "C14", "C17"})
 
 
 def regenerate():
     return translate_facade.generate()
 
 
+# theorems of Proofs/CBinding.lean (the C binding forwards faithfully), audited under the properties whose scripts go
+# through the binding (`bus new capi`)
+CB = [T + "cbinding_same_method", T + "cbinding_args_in_order", T + "cbinding_types_agree", T + "cbinding_forwards"]
+CB_PROPS = ["C06", "C07", "C11", "C12", "C14", "C17"]
+
+
 def extra_modules(prop):
-    return [("Proofs.Facade", EXTRA[prop])] if prop in EXTRA else []
+    out = [("Proofs.Facade", EXTRA[prop])] if prop in EXTRA else []
+    if prop in CB_PROPS:
+        out.append(("Proofs.CBinding", CB))
+    return out
+
+
+def _crows(path):
+    """{C function name (without the Teakra_ prefix): row text} of a translated C-binding table."""
+    rows = {}
+    for line in open(path):
+        m = re.match(r"^\s+⟨\d+ /- (\w+) -/", line) or re.match(r"^\s+\(\d+, \d+\) /- (\w+) -/", line)
+        if m:
+            rows[m.group(1)] = line.strip()
+    return rows
 
 
 def _defs(path):
@@ -71,10 +90,15 @@ def golden(prop):
     for sig in sorted(set(gm) | set(nm)):
         if gm.get(sig) != nm.get(sig) and any(sig.startswith(p) for p in METHODS.get(prop, [])):
             diffs.append("Teakra::" + sig + (" (removed)" if sig not in nm else " (new)" if sig not in gm else " (body or return type changed)"))
+    gc = _crows(os.path.join(vlib.LEAN, "TeakraModel", "Golden", "CBinding.lean"))
+    nc = _crows(os.path.join(vlib.LEAN, "TeakraModel", "Generated", "CBinding.lean"))
+    for name in sorted(set(gc) | set(nc)):
+        if gc.get(name) != nc.get(name) and any((name + "(").startswith(p) for p in METHODS.get(prop, [])):
+            diffs.append("C binding Teakra_%s" % name)
     for part in PARTS.get(prop, []):
         if gd.get(part) != nd.get(part):
             diffs.append("`%s`: %s" % (part, " ".join((nd.get(part) or "").split())[:300]))
-    anything = any(gm.get(s) != nm.get(s) for s in set(gm) | set(nm)) or any(gd.get(k) != nd.get(k) for k in set(gd) | set(nd))
+    anything = gc != nc or any(gm.get(s) != nm.get(s) for s in set(gm) | set(nm)) or any(gd.get(k) != nd.get(k) for k in set(gd) | set(nd))
     info["differences_owned_by_this_property"] = diffs
     if not diffs and anything:
         return info, None            # another property's part of the facade changed
